@@ -42,7 +42,21 @@ type viewChecker struct {
 	m            *regModel
 	listeners    []*c13Listener
 	values       func() []string
-	undetermined int // events after which the model left a value's membership open
+	undetermined int        // events after which the model left a value's membership open
+	rd           *readerSet // background readers (concurrent units), nil otherwise
+	wild         bool       // the event in flight hands over more than one change
+}
+
+// attachReaders starts background readers of this view (see c13_readers_test.go).
+func (vc *viewChecker) attachReaders(plans []readerPlan) {
+	must, may := vc.m.bounds()
+	vc.rd = startReaders(vc.values, must, may, plans)
+}
+
+func (vc *viewChecker) haltReaders() {
+	if vc.rd != nil {
+		vc.rd.halt()
+	}
 }
 
 // newListener returns the callback to register with the code under test.
@@ -67,12 +81,27 @@ func (vc *viewChecker) before() viewBefore {
 	for i, l := range vc.listeners {
 		b.calls[i] = l.calls
 	}
+	if vc.rd != nil {
+		vc.rd.begin()
+	}
 	return b
 }
 
 // after checks the view and the listener clause once the event has been applied to both
 // the code under test and the model.  It returns "" or a complaint.
 func (vc *viewChecker) after(b viewBefore) string {
+	msg := vc.afterSequential(b)
+	if vc.rd != nil {
+		must, may := vc.m.bounds()
+		if m2 := vc.rd.end(must, may, vc.wild); msg == "" {
+			msg = m2
+		}
+	}
+	vc.wild = false
+	return msg
+}
+
+func (vc *viewChecker) afterSequential(b viewBefore) string {
 	got := vc.values()
 	if msg := vc.m.verdict(got); msg != "" {
 		return fmt.Sprintf("%s: Values()=%v, registry %s", msg, sortedCopy(got), vc.m)
@@ -173,6 +202,7 @@ func (h *containerHarness) reload(snap map[string]string, addPerm, delPerm []int
 	adds = permuteKVs(adds, addPerm)
 	removes = permuteKVs(removes, delPerm)
 	h.reloads++
+	h.wild = len(adds)+len(removes) > 1
 	fmt.Fprintf(&h.log, " reload(add%v del%v)", adds, removes)
 	return h.event(func() {
 		for _, kv := range adds {
@@ -259,12 +289,29 @@ func TestVerifC13Container(t *testing.T) {
 	logx.Disable()
 	st := verifkit.New("container")
 	defer st.Flush()
-	rapid.Check(t, func(t *rapid.T) {
+	rapid.Check(t, containerProperty(st, false))
+}
+
+// TestVerifC13ContainerConcurrent: the same histories while 1-4 goroutines poll
+// getValues() (see c13_readers_test.go).
+func TestVerifC13ContainerConcurrent(t *testing.T) {
+	logx.Disable()
+	st := verifkit.New("container-concurrent")
+	defer st.Flush()
+	rapid.Check(t, containerProperty(st, true))
+}
+
+func containerProperty(st *verifkit.Stats, concurrent bool) func(*rapid.T) {
+	return func(t *rapid.T) {
 		st.Eval()
 		excl := rapid.Bool().Draw(t, "exclusive")
 		h := newContainerHarness(excl, rapid.IntRange(0, 3).Draw(t, "listeners"))
 		if got := h.c.getValues(); len(got) != 0 {
 			t.Fatalf("fresh container has values %v", got)
+		}
+		if concurrent {
+			h.attachReaders(drawReaderPlans(t, 4))
+			defer h.haltReaders()
 		}
 		fail := func(msg string) {
 			if msg != "" {
@@ -330,11 +377,18 @@ func TestVerifC13Container(t *testing.T) {
 		if h.reloads > 0 {
 			st.Class("with-reload")
 		}
+		if h.rd != nil {
+			h.haltReaders()
+			if msg := h.rd.judge(); msg != "" {
+				t.Fatalf("%s\nhistory: %s", msg, h.log.String())
+			}
+			st.ClassN("reader-samples-judged", h.rd.judged)
+		}
 		if h.inPlace > 0 {
 			st.Class("with-value-change")
 			st.NonTrivial(h.log.String())
 		}
-	})
+	}
 }
 
 // ------------------------------------------------------------------ regressions (D4)
